@@ -421,11 +421,21 @@ func (e *emitter) c14WithAcceptable(s *source, rel string) {
 	var lets []string
 	param := ""
 	ok := false
+	nilGuard := false
 	if fd != nil && len(fd.Body.List) == 1 && fd.Type.Params != nil && len(fd.Type.Params.List) == 1 && len(fd.Type.Params.List[0].Names) == 1 {
 		param = fd.Type.Params.List[0].Names[0].Name
 		if r, isRet := fd.Body.List[0].(*ast.ReturnStmt); isRet && len(r.Results) == 1 {
-			if fl, isFn := r.Results[0].(*ast.FuncLit); isFn && len(fl.Body.List) == 1 {
-				if ifs, isIf := fl.Body.List[0].(*ast.IfStmt); isIf && ifs.Init == nil {
+			if fl, isFn := r.Results[0].(*ast.FuncLit); isFn && len(fl.Body.List) >= 1 {
+				body := fl.Body.List
+				// an optional leading guard  if <param> == nil { return }  (fixes/C14-withacceptable-nil.patch)
+				if g, isIf := body[0].(*ast.IfStmt); isIf && len(body) == 2 && g.Init == nil && g.Else == nil &&
+					c14Flat(s.src(g.Cond)) == param+" == nil" && len(g.Body.List) == 1 {
+					if gr, isR := g.Body.List[0].(*ast.ReturnStmt); isR && len(gr.Results) == 0 {
+						nilGuard = true
+						body = body[1:]
+					}
+				}
+				if ifs, isIf := body[0].(*ast.IfStmt); isIf && len(body) == 1 && ifs.Init == nil {
 					assignTo := func(st ast.Stmt, lhs string) (ast.Expr, bool) {
 						a, isA := st.(*ast.AssignStmt)
 						if !isA || len(a.Lhs) != 1 || len(a.Rhs) != 1 || s.src(a.Lhs[0]) != lhs {
@@ -458,6 +468,7 @@ func (e *emitter) c14WithAcceptable(s *source, rel string) {
 	}
 	e.printf("/-- `WithAcceptable(%s)`: the condition of its option closure -/\ndef withAcceptableCond : BX := %s\n\n", param, cond)
 	e.printf("def withAcceptableParam : String := %s\n\n", leanString(param))
+	e.printf("/-- the option closure starts with  if %s == nil { return }  (a nil function is ignored) -/\ndef withAcceptableNilGuard : Bool := %v\n\n", param, nilGuard)
 	e.printf("/-- … what it installs as conn.accept when the condition holds -/\ndef withAcceptableThen : FX := %s\n\n", thn)
 	e.printf("/-- … the local bindings of its else branch -/\ndef withAcceptableLets : List (String × FX) := [%s]\n\n", strings.Join(lets, ", "))
 	e.printf("/-- … what it installs as conn.accept otherwise -/\ndef withAcceptableElse : FX := %s\n\n", els)
